@@ -19,6 +19,8 @@
                  | (ctor T K e…) | (some e) | (none) | (try e) | (match e arm…) | (fstr e…)
           arm  ::= (arm pat expr|_ blk)
           pat  ::= _ | (p some|none|K n) | (p some|none|K b x…)
+    c07 infer <sexp>           → ok | ok unsolved | err <class> | ice | stuck | bad-parse
+        the model of the inference pass `RotoV.TcInfer.checkProgM` on the same program text
     c07 op <op> <l> <r>        → ok <t> | rej     (`TcRules.binopReal`)
     c07 opdoc <op> <l> <r>     → ok | rej         (documented rule `Typing.binopTy`)
     c07 neg <t> / c07 not <t>  → ok <t> | rej
@@ -37,6 +39,8 @@ import Driver.Util
 import RotoV.Model.Typing
 import RotoV.Model.UnifyTc
 import RotoV.Model.TcRules
+import RotoV.Model.TcInfer
+import RotoV.Model.TcInferSem
 
 namespace Driver.C07
 open RotoV RotoV.Typing
@@ -211,6 +215,21 @@ def handleProg (text : String) : String :=
     | some p => match checkProg p with
       | .ok _ => "ok"
       | .error e => s!"err {e}"
+    | none => "bad-parse"
+  | _ => "bad-parse"
+
+/-- `c07 infer <sexp>`: the model of the inference pass (`TcInfer.checkProgM`) -/
+def handleInfer (text : String) : String :=
+  match parseSexp (tokens text) with
+  | some (sx, []) =>
+    match parseProg sx with
+    | some p => match TcInfer.checkProgM p with
+      | .ok _ st =>
+        -- the premise of `infer_sound_partial`: the store left behind has a solution
+        if TcInfer.satB (TcInfer.solve st.store) st.store then "ok" else "ok unsolved"
+      | .err e => s!"err {e.show}"
+      | .ice => "ice"
+      | .stuck => "stuck"
     | none => "bad-parse"
   | _ => "bad-parse"
 
@@ -489,6 +508,7 @@ def handle (args : List String) : String :=
     | some n, some prog => if n ≤ 4 then (if ltypable n prog then "typable" else "untypable") else "bad-op"
     | _, _ => "bad-op"
   | "prog" :: rest => handleProg (" ".intercalate rest)
+  | "infer" :: rest => handleInfer (" ".intercalate rest)
   | ["op", op, l, r] =>
     match parseOp op, parseOTy l, parseOTy r with
     | some op, some l, some r => showRes (TcRules.binopReal op l r)
